@@ -11,17 +11,24 @@
 //	     msg, type_url, value byte strings [len, bytes...]; the handler returns
 //	     status.FromProto(&spb.Status{Code: int32(code), Message: msg, Details: anys}).Err()
 //	obs [isnil, code, msg, n, (type_url, value)...]   what status.Convert(err) shows on the client
+//
+//	op  [2, g, n, code]   stress: g goroutines x n RPCs on the same connection, alternately unary
+//	     and server-streaming (trailers-only); every handler returns status.Error(code, "stress")
+//	obs [bad]             number of RPCs whose client result is not exactly (code, "stress", no details)
 package statuswire
 
 import (
 	"context"
 	"io"
 	"net"
+	"sync"
+	"sync/atomic"
 	"testing"
 	"time"
 
 	spb "google.golang.org/genproto/googleapis/rpc/status"
 	"google.golang.org/grpc"
+	"google.golang.org/grpc/codes"
 	"google.golang.org/grpc/credentials/insecure"
 	"google.golang.org/grpc/status"
 	"google.golang.org/grpc/test/bufconn"
@@ -30,6 +37,7 @@ import (
 )
 
 type vStatusWireEnv struct {
+	stressCode uint32
 	cc   *grpc.ClientConn
 	srv  *grpc.Server
 	cur  error
@@ -63,11 +71,28 @@ func vStatusWireStream(srv any, ss grpc.ServerStream) error {
 	return env.cur
 }
 
+func vStatusWireStressUnary(srv any, ctx context.Context, dec func(any) error, _ grpc.UnaryServerInterceptor) (any, error) {
+	env := srv.(*vStatusWireEnv)
+	if err := dec(new(emptypb.Empty)); err != nil {
+		return nil, err
+	}
+	return nil, status.Error(codes.Code(atomic.LoadUint32(&env.stressCode)), "stress")
+}
+
+func vStatusWireStressStream(srv any, ss grpc.ServerStream) error {
+	env := srv.(*vStatusWireEnv)
+	if err := ss.RecvMsg(new(emptypb.Empty)); err != nil {
+		return err
+	}
+	return status.Error(codes.Code(atomic.LoadUint32(&env.stressCode)), "stress")
+}
+
 var vStatusWireDesc = grpc.ServiceDesc{
 	ServiceName: "verif.StatusWire",
 	HandlerType: (*any)(nil),
-	Methods:     []grpc.MethodDesc{{MethodName: "U", Handler: vStatusWireUnary}},
-	Streams:     []grpc.StreamDesc{{StreamName: "S", Handler: vStatusWireStream, ServerStreams: true}},
+	Methods:     []grpc.MethodDesc{{MethodName: "U", Handler: vStatusWireUnary}, {MethodName: "SU", Handler: vStatusWireStressUnary}},
+	Streams: []grpc.StreamDesc{{StreamName: "S", Handler: vStatusWireStream, ServerStreams: true},
+		{StreamName: "SS", Handler: vStatusWireStressStream, ServerStreams: true}},
 }
 
 func vStatusWireStart() *vStatusWireEnv {
@@ -96,12 +121,37 @@ func vStatusWireStr(w []int64) (string, []int64, bool) {
 }
 
 func vStatusWireCall(env *vStatusWireEnv, mode int64) error {
-	ctx, cancel := context.WithTimeout(context.Background(), 20*time.Second)
+	return vStatusWireCallM(env, mode, "/verif.StatusWire/U", "/verif.StatusWire/S")
+}
+
+func vStatusWireStress(env *vStatusWireEnv, g, n int, code uint32) int64 {
+	atomic.StoreUint32(&env.stressCode, code)
+	var bad int64
+	var wg sync.WaitGroup
+	for j := 0; j < g; j++ {
+		wg.Add(1)
+		go func(j int) {
+			defer wg.Done()
+			for i := 0; i < n; i++ {
+				err := vStatusWireCallM(env, int64((i+j)%2)*2, "/verif.StatusWire/SU", "/verif.StatusWire/SS")
+				st := status.Convert(err)
+				if err == nil || uint32(st.Code()) != code || st.Message() != "stress" || len(st.Proto().GetDetails()) != 0 {
+					atomic.AddInt64(&bad, 1)
+				}
+			}
+		}(j)
+	}
+	wg.Wait()
+	return bad
+}
+
+func vStatusWireCallM(env *vStatusWireEnv, mode int64, um, sm string) error {
+	ctx, cancel := context.WithTimeout(context.Background(), 60*time.Second)
 	defer cancel()
 	if mode == 0 {
-		return env.cc.Invoke(ctx, "/verif.StatusWire/U", &emptypb.Empty{}, &emptypb.Empty{})
+		return env.cc.Invoke(ctx, um, &emptypb.Empty{}, &emptypb.Empty{})
 	}
-	cs, err := env.cc.NewStream(ctx, &vStatusWireDesc.Streams[0], "/verif.StatusWire/S")
+	cs, err := env.cc.NewStream(ctx, &vStatusWireDesc.Streams[0], sm)
 	if err != nil {
 		return err
 	}
@@ -125,9 +175,15 @@ func vStatusWireExec(cfg []int64, ops [][]int64) ([][]int64, bool, []string) {
 	defer env.stop()
 	var obs [][]int64
 	nt := false
+	tagStress := false
 	for _, op := range ops {
 		var o []int64
 		func() {
+			if len(op) == 4 && op[0] == 2 && op[1] >= 0 && op[2] >= 0 && op[1] <= 256 && op[2] <= 100000 && op[3] >= 1 && op[3] <= 0xffffffff {
+				o = []int64{vStatusWireStress(env, int(op[1]), int(op[2]), uint32(op[3]))}
+				tagStress = true
+				return
+			}
 			if len(op) < 4 || op[0] != 1 || op[1] < 0 || op[1] > 2 || op[2] < 0 || op[2] > 0xffffffff {
 				return
 			}
@@ -170,7 +226,11 @@ func vStatusWireExec(cfg []int64, ops [][]int64) ([][]int64, bool, []string) {
 		}()
 		obs = append(obs, o)
 	}
-	return obs, nt, nil
+	var tags []string
+	if tagStress {
+		tags = []string{"stress"}
+	}
+	return obs, nt, tags
 }
 
 // ---- generators ----
@@ -183,7 +243,7 @@ func vStatusWireOp(mode int64, code int64, msg string, details ...string) []int6
 	return w
 }
 
-var vStatusWireMsgs = []string{"", "ok", "two words", "100% sure", "a\nb\tc", "café 世界 \U0001F600", "%41%zz%", "\x00\x7f", "trailing %", "~!@#$^&*()", strings400}
+var vStatusWireMsgs = []string{"\uFFFD", "bad input \uFFFD near offset 7", "\uFFFD\uFFFDx\uFFFD", "", "ok", "two words", "100% sure", "a\nb\tc", "café 世界 \U0001F600", "%41%zz%", "\x00\x7f", "trailing %", "~!@#$^&*()", strings400}
 
 const strings400 = "0123456789012345678901234567890123456789012345678901234567890123456789012345678901234567890123456789" +
 	"0123456789012345678901234567890123456789012345678901234567890123456789012345678901234567890123456789"
@@ -207,6 +267,14 @@ func vStatusWireRandDetails(r *vRand) []string {
 
 func vStatusWireGen(r *vRand, tier string, idx int) ([]int64, [][]int64) {
 	var ops [][]int64
+	if idx == 4 || (tier == "thorough" && idx%100 == 4) {
+		// stress: many short concurrent RPCs with a non-OK status, every one must return it
+		g, n := int64(16), int64(250)
+		if tier == "thorough" {
+			n = 1500
+		}
+		return nil, [][]int64{{2, g, n, 7}, vStatusWireOp(0, 3, "after"), {2, 1, n, 14}, {2, 4, n, 16}}
+	}
 	switch idx {
 	case 0: // finding replay: a code above 2^31-1
 		return nil, [][]int64{vStatusWireOp(0, 1<<31, "big")}
@@ -243,7 +311,7 @@ func vStatusWireGen(r *vRand, tier string, idx int) ([]int64, [][]int64) {
 			n := r.Intn(8)
 			rs := make([]rune, n)
 			for j := range rs {
-				rs[j] = rune(r.PickInt(0x20, 0x25, 0x7e, 0x7f, 0xe9, 0x7ff, 0x800, 0xffff, 0x10000, 0x10ffff, 0x41))
+				rs[j] = rune(r.PickInt(0x20, 0x25, 0x7e, 0x7f, 0xe9, 0x7ff, 0x800, 0xfffd, 0xfffd, 0xffff, 0x10000, 0x10ffff, 0x41))
 			}
 			msg = string(rs)
 		}
